@@ -380,6 +380,15 @@ def overlay (o : Opts) (notes : List (Str × Note)) (foreign : List (Str × Prom
     (hs : List Hunk) : List (Nat × Str) :=
   (overlayL notes foreign blamed hs).map (fun x => (x.1.final, labelStr o x.1.author x.2))
 
+/-- `line_prompt_hashes`: the *kind* of a line's author, kept next to the display string — a row
+    (line, session hash) exactly for the lines the overlay labels `ai`; human / unknown lines have
+    none, whatever their display string looks like (the formatters read AI-ness from here). -/
+def aiRows (out : List (BlameLine × Label)) : List (Nat × Str) :=
+  out.filterMap (fun x =>
+    match x.2 with
+    | .ai h _ => some (x.1.final, h)
+    | _ => none)
+
 /-- keys inserted into `prompt_records` -/
 def promptKeys (notes : List (Str × Note)) (foreign : List (Str × Prompt)) (blamed : Str)
     (hs : List Hunk) : List Str :=
@@ -461,7 +470,7 @@ def expandIncremental : List (Nat × Nat × Str) → List (Nat × Str)
   | [] => []
   | (s, n, c) :: rest => ((List.range' s n).map (fun l => (l, c))) ++ expandIncremental rest
 
-/-- `--json`: AI lines (author is a key of `prompt_records`) grouped into maximal runs of
+/-- `--json`: AI lines (the rows of `line_prompt_hashes`) grouped into maximal runs of
     consecutive lines with the same prompt id; input sorted by line. -/
 def jsonRuns : List (Nat × Str) → List (Nat × Nat × Str)
   | [] => []
@@ -477,8 +486,39 @@ def expandRuns : List (Nat × Nat × Str) → List (Nat × Str)
 
 def jsonKey (s e : Nat) : Str := if s = e then natToStr s else natToStr s ++ '-' :: natToStr e
 
-/-- the `lines` object of the JSON output (before `BTreeMap` ordering) -/
-def jsonLines (la : List (Nat × Str)) (keys : List Str) : List (Str × Str) :=
-  (jsonRuns (la.filter (fun x => keys.contains x.2))).map (fun r => (jsonKey r.1 r.2.1, r.2.2))
+/-- the `lines` object of the JSON output (before `BTreeMap` ordering); `ai` = the rows of
+    `line_prompt_hashes` sorted by line -/
+def jsonLines (ai : List (Nat × Str)) : List (Str × Str) :=
+  (jsonRuns ai).map (fun r => (jsonKey r.1 r.2.1, r.2.2))
+
+/-- author column of the default format: under `--show-prompt` a line with a row in
+    `line_prompt_hashes` whose hash has a prompt record shows `tool [hash7]`; every other line
+    shows its `line_authors` string (`-e` / `-s` not modelled). -/
+def displayAuthor (showPrompt : Bool) (ai : Option (Str × Prompt)) (author : Str) : Str :=
+  match showPrompt, ai with
+  | true, some (h, p) => p.tool ++ ' ' :: '[' :: (h.take 7 ++ [']'])
+  | _, _ => author
+
+/-- the `ai` argument of `displayAuthor` for a line: `line_prompt_hashes.get(line)` then
+    `prompt_records.get(hash)` -/
+def aiPromptOf (ai : List (Nat × Str)) (prompts : List (Str × Prompt)) (line : Nat) :
+    Option (Str × Prompt) :=
+  match lookupLast line ai with
+  | none => none
+  | some h => (lookup h prompts).map (fun p => (h, p))
+
+/-- `prompt_records` (hash → record) as inserted by the overlay -/
+def promptRecords (out : List (BlameLine × Label)) : List (Str × Prompt) :=
+  out.filterMap (fun x =>
+    match x.2 with
+    | .ai h p => some (h, p)
+    | _ => none)
+
+/-- default format under `--show-prompt`: line → author column -/
+def showPromptRows (o : Opts) (out : List (BlameLine × Label)) (hs : List Hunk) : List (Nat × Str) :=
+  let la := out.map (fun x => (x.1.final, labelStr o x.1.author x.2))
+  (hunksLines hs).map (fun bl =>
+    (bl.final, displayAuthor true (aiPromptOf (aiRows out) (promptRecords out) bl.final)
+      ((lookupLast bl.final la).getD bl.author)))
 
 end GitAi.BlameOverlay
